@@ -6,7 +6,7 @@ bitmaps, metafile records, pixel-size probes) and keep the frame's display size 
 parsed only when get_metadata() is called.  This family therefore enumerates, for every format whose reference writer can
 embed a picture, the document [paragraph, one picture] with the picture described by
 
-    pic = {"kind": K, "w": lexeme name, "h": lexeme name, "uid2": bool}
+    pic = {"kind": K, "w": lexeme name, "h": lexeme name, "uid2": bool, "title": S, "desc": S, "name": S, "cap": S}
 
 K (payload encoding; each payload is a minimal valid file of the kind unless said otherwise)
     png, jpeg, gif, bmp (24 bit, 40-byte BITMAPINFOHEADER), bmpv5 (124-byte BITMAPV5HEADER), tiff, emf, wmf (placeable), pict,
@@ -26,8 +26,24 @@ w, h (display size of the frame; a name of LEN or INT below; "ok" = the writer's
     non-ASCII digit);
     ppt, xls, epub: no size lexeme (binary anchors / no size attribute is read).
 
+title, desc, name, cap (the LABEL slots of the picture: the places where a document says what the picture shows; extractors feed them
+into get_caption() / get_description(), each slot through its own look-up, often with a fall-back from one slot to another;
+S names a STATE of the slot, "ok" = what the writer does by itself)
+    odt, odp, odg, ods: title = svg:title, desc = svg:desc (child ELEMENTS of the draw:frame; natural: not written), name = the
+        draw:name ATTRIBUTE (natural: "Image1");  odt also cap = the caption form of a text document: the picture frame sits in a
+        paragraph of a text box of an outer frame and the paragraph's text is the caption (natural: no outer frame);
+    docx (wp:docPr and pic:cNvPr, both get the same), pptx (p:cNvPr), xlsx (xdr:cNvPr): title = title, desc = descr, name = name
+        ATTRIBUTES (natural: name "Picture n", the others not written);
+    epub: title = title, desc = alt ATTRIBUTES of the img element (natural: alt text, no title);
+    rtf, ppt, xls: no label slot.
+  states of an element slot:   ok (absent), empty (<e/>), ws (two spaces), text, uni (non-BMP / RTL / markup characters), nl (two
+                               lines), comment (<e><!--c--></e>: present, no text node), cdata (the text as a CDATA section)
+  states of an attribute slot: ok, absent (only where the natural form writes the attribute), empty (a=""), ws, text, uni, nl (&#10;)
+  states of cap:               ok (no caption frame), empty (caption paragraph holds the picture only), text, uni,
+                               seq ("Illustration <text:sequence>1</text:sequence>: text", what an editor writes)
+
 Nothing here shares code with the library.  Writers are used as they are; where a writer cannot express the deviation
-(size lexemes of OOXML / RTF, RTF picture kinds) its output is patched at exactly one place (asserted).
+(size lexemes of OOXML / RTF, RTF picture kinds, label slots) its output is patched at exactly one place (asserted).
 """
 from __future__ import annotations
 
@@ -55,7 +71,13 @@ ODF_FORMATS = ("odt", "odp", "odg", "ods")
 INT_FORMATS = ("docx", "pptx", "xlsx", "rtf")
 BLIP_FORMATS = ("ppt", "xls")
 PIC_FORMATS = ("docx", "pptx", "xlsx") + ODF_FORMATS + ("rtf", "ppt", "xls", "epub")
-DEFAULT = {"kind": "png", "w": "ok", "h": "ok", "uid2": False}
+LAB_SLOTS = ("title", "desc", "name", "cap")
+LAB_ELEM = ["ok", "empty", "ws", "text", "uni", "nl", "comment", "cdata"]      # element slot (natural: element absent)
+LAB_ATTR = ["ok", "empty", "ws", "text", "uni", "nl"]                          # attribute slot the writer leaves out by itself
+LAB_ATTR_NAT = ["ok", "absent", "empty", "ws", "text", "uni", "nl"]            # attribute slot the writer fills by itself
+LAB_CAP = ["ok", "empty", "text", "uni", "seq"]                                # caption paragraph around the picture frame (odt)
+LAB_FORMATS = ODF_FORMATS + ("docx", "pptx", "xlsx", "epub")
+DEFAULT = {"kind": "png", "w": "ok", "h": "ok", "uid2": False, "title": "ok", "desc": "ok", "name": "ok", "cap": "ok"}
 
 _EXT = {"png": "png", "jpeg": "jpeg", "gif": "gif", "bmp": "bmp", "bmpv5": "bmp", "tiff": "tiff", "emf": "emf", "wmf": "wmf",
         "pict": "pct", "unk": "bin", "empty": "png", "png0": "png", "pngsig": "png"}
@@ -84,6 +106,20 @@ def kinds_of(fmt):
     return list(KINDS)
 
 
+def labels_of(fmt):
+    """the label slots of a format and the state alphabet of each: {} when the format has none"""
+    if fmt in ODF_FORMATS:
+        d = {"title": LAB_ELEM, "desc": LAB_ELEM, "name": LAB_ATTR_NAT}
+        if fmt == "odt":
+            d["cap"] = LAB_CAP
+        return d
+    if fmt in ("docx", "pptx", "xlsx"):
+        return {"title": LAB_ATTR, "desc": LAB_ATTR, "name": LAB_ATTR_NAT}
+    if fmt == "epub":
+        return {"title": LAB_ATTR, "desc": LAB_ATTR_NAT}
+    return {}
+
+
 def canonical(pic):
     """only the components that differ from DEFAULT (the PNG in a frame of natural size, one UID)"""
     return {k: v for k, v in sorted(pic.items()) if v != DEFAULT[k]}
@@ -94,8 +130,9 @@ def valid(fmt, pic):
         return False
     p = dict(DEFAULT, **pic)
     s = sizes_of(fmt) or {"ok": None}
+    lab = labels_of(fmt)
     return (p["kind"] in kinds_of(fmt) and p["w"] in s and p["h"] in s and isinstance(p["uid2"], bool)
-            and (not p["uid2"] or fmt in BLIP_FORMATS))
+            and (not p["uid2"] or fmt in BLIP_FORMATS) and all(p[k] in lab.get(k, ("ok",)) for k in LAB_SLOTS))
 
 
 # ------------------------------------------------------------------------------------------------ payloads
@@ -234,6 +271,113 @@ def _patch_rtf(data: bytes, kind, body: bytes, w, h) -> bytes:
     return _sub_once(text, r"\{\\pict(\\pngblip|\\jpegblip)((?:\\pic[a-z]+\d+)+) [0-9a-f]*\}", grp, "\\pict group").encode("ascii")
 
 
+# ------------------------------------------------------------------------------------------------ label slots
+
+def _xt(v: str) -> str:
+    return v.replace("&", "&amp;").replace("<", "&lt;").replace(">", "&gt;")
+
+
+def _xa(v: str) -> str:
+    return _xt(v).replace('"', "&quot;").replace("\n", "&#10;")
+
+
+def _lab_value(state, tk) -> str:
+    if state == "ws":
+        return "  "
+    if state == "uni":
+        return tk.new("L") + K.UNI_TEXT + tk.new("L")
+    if state == "nl":
+        return tk.new("L") + "\n" + tk.new("L")
+    if state in ("text", "cdata", "seq"):
+        return tk.new("L")
+    raise ValueError(state)
+
+
+def _lab_elem(tag, state, tk) -> str:
+    if state == "ok":
+        return ""
+    if state == "empty":
+        return "<%s/>" % tag
+    if state == "comment":
+        return "<%s><!--c--></%s>" % (tag, tag)
+    if state == "cdata":
+        return "<%s><![CDATA[%s]]></%s>" % (tag, _lab_value(state, tk), tag)
+    return "<%s>%s</%s>" % (tag, _xt(_lab_value(state, tk)), tag)
+
+
+def _lab_attr(attrs: str, name: str, state, tk) -> str:
+    """attrs = the attribute text of a start tag (' a="1" b="2"'); attribute `name` is removed / rewritten as the state says"""
+    if state == "ok":
+        return attrs
+    attrs, n = re.subn(r'\s%s="[^"]*"' % re.escape(name), "", attrs)
+    if n > 1:
+        raise ValueError("label patch: attribute %s found %d times" % (name, n))
+    if state == "absent":
+        return attrs
+    return attrs + ' %s="%s"' % (name, "" if state == "empty" else _xa(_lab_value(state, tk)))
+
+
+def _lab_odf(data: bytes, p, tk) -> bytes:
+    def frame(m):
+        attrs = _lab_attr(m.group(1), "draw:name", p["name"], tk)
+        f = "<draw:frame%s>%s%s%s</draw:frame>" % (attrs, m.group(2), _lab_elem("svg:title", p["title"], tk),
+                                                   _lab_elem("svg:desc", p["desc"], tk))
+        cap = p["cap"]
+        if cap == "ok":
+            return f
+        if cap == "empty":
+            text = ""
+        elif cap == "seq":
+            text = ('Illustration <text:sequence text:ref-name="refIllustration0" text:name="Illustration" '
+                    'text:formula="ooow:Illustration+1" style:num-format="1">1</text:sequence>: ' + _xt(_lab_value(cap, tk)))
+        else:
+            text = _xt(_lab_value(cap, tk))
+        return ('<draw:frame draw:style-name="fr1" draw:name="Frame1" text:anchor-type="as-char" svg:width="8cm" draw:z-index="1">'
+                '<draw:text-box fo:min-height="0.5cm"><text:p text:style-name="Standard">%s%s</text:p></draw:text-box></draw:frame>'
+                % (f, text))
+    return _patch_part(data, "content.xml",
+                       lambda x: _sub_once(x, r"<draw:frame( [^>]*)>(<draw:image [^>]*/>)</draw:frame>", frame, "picture frame"))
+
+
+def _xlsx_drawing_part(data: bytes) -> str:
+    part = [n for n in zipfile.ZipFile(io.BytesIO(data)).namelist() if re.fullmatch(r"xl/drawings/drawing\d+\.xml", n)]
+    if len(part) != 1:
+        raise ValueError("picture patch: expected one drawing part, found %r" % (part,))
+    return part[0]
+
+
+def _lab_ooxml(data: bytes, fmt, p, tk) -> bytes:
+    """name / descr / title attributes of the picture's non-visual properties.  docx states them twice (wp:docPr of the drawing,
+    pic:cNvPr of the picture): both elements get the same value"""
+    made = {}
+
+    def props(m):
+        attrs = m.group(2)
+        for slot, name in (("name", "name"), ("desc", "descr"), ("title", "title")):
+            if p[slot] == "ok":
+                continue
+            attrs = _lab_attr(attrs, name, "absent", tk)
+            if p[slot] != "absent":
+                if slot not in made:
+                    made[slot] = _lab_attr("", name, p[slot], tk)
+                attrs += made[slot]
+        return "<%s%s/>" % (m.group(1), attrs)
+
+    if fmt == "docx":
+        part, scope, tags = "word/document.xml", r"<w:drawing>.*?</w:drawing>", ("wp:docPr", "pic:cNvPr")
+    elif fmt == "pptx":
+        part, scope, tags = "ppt/slides/slide1.xml", r"<p:pic>.*?</p:pic>", ("p:cNvPr",)
+    else:
+        part, scope, tags = _xlsx_drawing_part(data), r"<xdr:pic>.*?</xdr:pic>", ("xdr:cNvPr",)
+
+    def inside(m):
+        x = m.group(0)
+        for t in tags:
+            x = _sub_once(x, r"<(%s)((?:\s[\w:]+=\"[^\"]*\")*)\s*/>" % re.escape(t), props, t)
+        return x
+    return _patch_part(data, part, lambda x: _sub_once(x, scope, inside, "picture"))
+
+
 # ------------------------------------------------------------------------------------------------ builder
 
 def build(fmt, pic, tk):
@@ -284,11 +428,17 @@ def build(fmt, pic, tk):
     elif fmt == "epub":
         from verif.gen import htmlfam
         ext = _EXT[kind]
-        inner = '<p>%s</p><p><img src="img/k.%s" alt="%s"/></p>' % (tk.new("B"), ext, tk.new("Z"))
+        attrs = _lab_attr(_lab_attr(' src="img/k.%s" alt="%s"' % (ext, tk.new("Z")), "alt", p["desc"], tk), "title", p["title"], tk)
+        inner = '<p>%s</p><p><img%s/></p>' % (tk.new("B"), attrs)
         dc = {"identifier": "urn:verif:c04", "language": "en", "title": "Zttttt"}
         data = htmlfam.epub([htmlfam.xhtml_page(inner, "t")], dc, extra_items=[("img1", "img/k." + ext, _MEDIA[ext], body)])
     else:
         raise ValueError(fmt)
+    if any(p[k] != "ok" for k in LAB_SLOTS):
+        if fmt in ODF_FORMATS:
+            data = _lab_odf(data, p, tk)
+        elif fmt in ("docx", "pptx", "xlsx"):
+            data = _lab_ooxml(data, fmt, p, tk)
     return {"data": data, "props": {}, "members": [], "used": used}
 
 
@@ -331,4 +481,34 @@ def cases(tier, fmt):
         for w in lex:
             for h in lex:
                 add("png", w, h)
+    return out
+
+
+def label_cases(tier, fmt):
+    """the PNG in a frame of natural size with its label slots in every combination of states:
+       quick:    every pair of slots in every pair of states, the other slots natural (pairwise);
+       thorough: every slot in every state (the full product)."""
+    lab = labels_of(fmt)
+    slots = [k for k in LAB_SLOTS if k in lab]
+    out, seen = [], set()
+
+    def add(states):
+        c = canonical(dict(DEFAULT, **states))
+        key = tuple(sorted(c.items()))
+        if c and key not in seen:
+            seen.add(key)
+            out.append(c)
+
+    if tier == "quick":
+        for i, a in enumerate(slots):
+            for b in slots[i + 1:]:
+                for x in lab[a]:
+                    for y in lab[b]:
+                        add({a: x, b: y})
+    else:
+        combos = [{}]
+        for k in slots:
+            combos = [dict(c, **{k: x}) for c in combos for x in lab[k]]
+        for c in combos:
+            add(c)
     return out
